@@ -216,6 +216,38 @@ store-failure-output = true
         sc.timeout_s = 60
         sc.meta = {"tests": tests, "retries": 1, "threads": 3, "heavy": False, "group_m": None, "group_r": None, "grace": GRACE, "delay_ms": 0, "backoff": "fixed", "run_ignored": "default", "extra": False, "store_s": False, "store_f": True, "combined": True}
         return sc
+    if k == 7:
+        # fixed scenario (corpus): a test group at least as wide as the run (max-threads 4, test-threads 2).  A long ungrouped test is
+        # dispatched first (priority) and holds global slot 0; the group's members then run one at a time beside it: each must get
+        # global slot 1 and GROUP slot 0 (the smallest free in its group), and the group's name
+        w = lambda ms_: {"kind": "pass", "acts": [f"work:{ms_}", "exit:0"], "out": None, "err": None, "expect": "P"}
+        tests = [{"bin": "t_one", "pkg": "alpha", "name": "long_ungrouped", "ignored": False, "attempts": [w(1100)]}]
+        tests += [{"bin": "t_two", "pkg": "alpha", "name": f"grouped_{i}", "ignored": False, "attempts": [w(250)]} for i in range(3)]
+        for t in tests: sc.test(t["bin"], t["name"], {"1": t["attempts"][0]["acts"]})
+        sc.config = '''[test-groups]
+g1 = { max-threads = 4 }
+[profile.default]
+retries = 0
+test-threads = 2
+fail-fast = false
+status-level = "all"
+final-status-level = "all"
+failure-output = "never"
+success-output = "never"
+[profile.default.junit]
+path = "@JUNIT@"
+[[profile.default.overrides]]
+filter = 'binary(t_one)'
+priority = 50
+[[profile.default.overrides]]
+filter = 'binary(t_two)'
+test-group = 'g1'
+'''
+        sc.cli = []
+        sc.env = {}
+        sc.timeout_s = 60
+        sc.meta = {"tests": tests, "retries": 0, "threads": 2, "heavy": False, "group_m": 4, "group_r": None, "grace": GRACE, "delay_ms": 0, "backoff": "fixed", "run_ignored": "default", "extra": False, "store_s": False, "store_f": True}
+        return sc
     retries = rng.choice([0, 0, 1, 2])
     threads = rng.choice([1, 2, 4])
     delay_ms = rng.choice([0, 0, 150]) if retries else 0
@@ -709,6 +741,49 @@ def mon_concurrency(sc, r):
     return out
 
 
+SLOT_SLACK_NS = 400_000_000
+
+
+def mon_least_free(sc, r):
+    """C14 end-to-end: "each slot is the smallest number free when the test was dispatched".  A test that got slot s was dispatched
+    while slots 0..s-1 were all held, so for every k < s some other test holding slot k (global: any test; group: a member of the
+    same group) must have been in flight around the moment of dispatch.  In flight = from its TestStarted to its TestFinished
+    event; the moment of dispatch = shortly before the test's own TestStarted; both widened by a slack for the lag between the
+    executor and the dispatcher.  (Not evaluated when the dispatcher is deliberately stalled.)"""
+    out = []
+    if getattr(sc, "stall_stderr_s", 0): return out
+    S, F = {}, {}
+    for (ns, kind, data) in r.events:
+        if kind == "TestStarted": S.setdefault(data.split(" ")[0], ns)
+        if kind == "TestFinished": F.setdefault(data.split(" ")[0], ns)
+    def key_of(b, n):
+        for k in S:
+            bid, nm = k.split("/")
+            dec = lambda x: "" if x == "-" else bytes.fromhex(x).decode("utf-8", "replace")
+            if dec(bid).split("::")[-1] == b and dec(nm) == n: return k
+        return None
+    info = []
+    for (b, n), procs in procs_by_test(r).items():
+        k = key_of(b, n)
+        if k is None: continue
+        e = procs[0]["env"]
+        gs, grp, grs = e.get("NEXTEST_TEST_GLOBAL_SLOT"), e.get("NEXTEST_TEST_GROUP"), e.get("NEXTEST_TEST_GROUP_SLOT")
+        if gs is None or not gs.isdigit(): continue
+        info.append({"name": n, "gs": int(gs), "grp": grp, "grs": int(grs) if grs is not None and grs.isdigit() else None,
+                     "lo": S[k] - SLOT_SLACK_NS, "hi": (F[k] + SLOT_SLACK_NS) if k in F else float("inf"),
+                     "dlo": S[k] - SLOT_SLACK_NS, "dhi": min(S[k], procs[0]["start"])})
+    for t in info:
+        for (what, slot, same) in (("global", t["gs"], lambda u: True), ("group", t["grs"], lambda u: u["grp"] == t["grp"])):
+            if slot is None: continue
+            for kk in range(slot):
+                holders = [u for u in info if u is not t and same(u) and (u["gs"] if what == "global" else u["grs"]) == kk and u["lo"] <= t["dhi"] and u["hi"] >= t["dlo"]]
+                if not holders:
+                    inflight = [(u["name"], u["gs"] if what == "global" else u["grs"]) for u in info if u is not t and same(u) and u["lo"] <= t["dhi"] and u["hi"] >= t["dlo"]]
+                    out.append(viol(sc, r, "slot-least", f"test {t['name']!r} was given {what} slot {slot}" + (f" in group {t['grp']}" if what == "group" else "") + f" although slot {kk} was free: the tests" + (" of that group" if what == "group" else "") + f" in flight when it was dispatched held {inflight}"))
+                    break
+    return out
+
+
 def summarize(res):
     n_tests = sum(len(sc.meta["tests"]) for sc, r in res)
     n_procs = sum(len([p for p in r.procs if p.get("start")]) for sc, r in res)
@@ -730,7 +805,7 @@ if __name__ == "__main__":
             for v in mon(sc, r): print("   ", mon.__name__, v["what"][:300])
 
 
-def check(monitors, seed, tier, n_quick=9, n_thorough=60):
+def check(monitors, seed, tier, n_quick=10, n_thorough=60):
     """Run the family and the given monitors; returns a dict to be merged into a property's result."""
     res, broken = run_family(seed, tier, n_quick, n_thorough)
     violations = []; notes = []
